@@ -2047,7 +2047,7 @@ impl Parser {
                         Operator::Assign => {
                             return Err(self.else_error_at(assign.pos, "expect := found ="))
                         }
-                        _ => unreachable!(),
+                        _ => false,
                     }
             }
             _ => false,
